@@ -221,6 +221,11 @@ def do_inline(draw, spec, log):
                     cands.append((mem, target, mod, need))
     if not cands:
         return
+    # a DEFAULT (or a constraint) at the member is converted / applied by code that looks at the member's type: prefer
+    # those members
+    rich = [c for c in cands if c[0].has_default]
+    if rich and draw(st.integers(0, 99)) < 60:
+        cands = rich
     mem, target, mod, need = cands[draw(st.integers(0, len(cands) - 1))]
     for rr, frm in need:
         if rr not in mod.imports.get(frm, []):
@@ -247,6 +252,9 @@ def do_extract(draw, spec, log):
                 cands.append((mod, mem))
     if not cands:
         return
+    rich = [c for c in cands if c[1].has_default]
+    if rich and draw(st.integers(0, 99)) < 60:
+        cands = rich
     mod, mem = cands[draw(st.integers(0, len(cands) - 1))]
     names = all_type_names(spec)
     i = 1
